@@ -283,7 +283,11 @@ def rule_env(run):
     run.begin("C10.env", "free names of a traced function are resolved like CPython: enclosing-function value, then module global, then builtin", floor=2)
     cas = run.idx.mod(CAS)
     f = cas.func("_ScopeBase._capture_env")
-    loops = [l for l in f.node.body if isinstance(l, ast.For) and dotted(l.iter) == "nonlocal_names"]
+    # the free-names parameter is the second one after self; the loop may iterate it directly or through an
+    # order-fixing wrapper such as sorted(...)
+    params = [a.arg for a in f.node.args.args]
+    free = params[2] if len(params) > 2 else "nonlocal_names"
+    loops = [l for l in f.node.body if isinstance(l, ast.For) and free in {n.id for n in ast.walk(l.iter) if isinstance(n, ast.Name)}]
     if not loops:
         raise AnalysisError("_capture_env: loop over free names not found")
     node = loops[0].body[0]
